@@ -192,22 +192,28 @@ struct ExtCfg {
     platform: bool,
     override_server: bool,
     mount: bool,
+    /// `c14.conn` only: the requests go over TLS + HTTP/2 (one connection, one stream per request)
+    h2: bool,
 }
 impl ExtCfg {
-    const CLASSIC: ExtCfg = ExtCfg { base: 1, flags: 0, platform: false, override_server: true, mount: false };
-    /// (L (N base) (N flags) (N platform) (N override) (N mount))
+    const CLASSIC: ExtCfg = ExtCfg { base: 1, flags: 0, platform: false, override_server: true, mount: false, h2: false };
+    /// (L (N base) (N flags) (N platform) (N override) (N mount) [(N h2)])
     fn parse(x: Option<&X>) -> Option<ExtCfg> {
         let x = match x {
             None => return Some(Self::CLASSIC),
             Some(x) => x,
         };
         match x.as_l()? {
-            [b, f, p, o, m] => Some(ExtCfg {
+            [b, f, p, o, m, rest @ ..] if rest.len() <= 1 => Some(ExtCfg {
                 base: b.as_n()?,
                 flags: f.as_n()?,
                 platform: p.as_n()? == 1,
                 override_server: o.as_n()? == 1,
                 mount: m.as_n()? == 1,
+                h2: match rest.first() {
+                    Some(h) => h.as_n()? == 1,
+                    None => false,
+                },
             }),
             _ => None,
         }
@@ -571,11 +577,141 @@ struct WireReply {
     body: Vec<u8>,
 }
 
+struct Tls14 {
+    key: Arc<rustls::sign::CertifiedKey>,
+    client_h2: Arc<rustls::ClientConfig>,
+}
+fn tls14() -> &'static Tls14 {
+    static TLS: std::sync::OnceLock<Tls14> = std::sync::OnceLock::new();
+    TLS.get_or_init(|| {
+        use rustls::pki_types::PrivateKeyDer;
+        let provider = Arc::new(rustls::crypto::ring::default_provider());
+        let ss = rcgen::generate_simple_self_signed(vec!["localhost".to_string()]).expect("self-signed certificate");
+        let cert = ss.cert.der().clone();
+        let pk = PrivateKeyDer::Pkcs8(ss.key_pair.serialized_der().to_vec().into());
+        let pk = rustls::crypto::ring::sign::any_supported_type(&pk).expect("key type");
+        let key = Arc::new(rustls::sign::CertifiedKey::new(vec![cert.clone()], pk));
+        let mut roots = rustls::RootCertStore::empty();
+        roots.add(cert).expect("root");
+        let mut c = rustls::ClientConfig::builder_with_provider(provider)
+            .with_safe_default_protocol_versions()
+            .expect("versions")
+            .with_root_certificates(roots)
+            .with_no_client_auth();
+        c.alpn_protocols = vec![b"h2".to_vec()];
+        Tls14 { key, client_h2: Arc::new(c) }
+    })
+}
+
+fn io_err(kind: std::io::ErrorKind, what: impl Into<String>) -> std::io::Error {
+    std::io::Error::new(kind, what.into())
+}
+
 struct ConnClient {
     stream: Option<tokio::net::TcpStream>,
     desc: Arc<PortDescriptor>,
+    h2: Option<h2::client::SendRequest<Bytes>>,
 }
 impl ConnClient {
+    /// One TLS connection with ALPN h2 to `handle_connection`; every request is a stream of it.
+    async fn open_h2(&mut self) -> std::io::Result<()> {
+        use std::io::ErrorKind::{Other, TimedOut};
+        let wait = Duration::from_secs(8);
+        let listener = tokio::net::TcpListener::bind("127.0.0.1:0").await?;
+        let addr = listener.local_addr()?;
+        let client = tokio::net::TcpStream::connect(addr).await?;
+        let (server_end, peer) = listener.accept().await?;
+        let desc = self.desc.clone();
+        tokio::spawn(async move {
+            let _ = kvarn::handle_connection(kvarn::Incoming::Tcp(server_end), peer, desc, || true).await;
+        });
+        let name = rustls::pki_types::ServerName::try_from("localhost").unwrap();
+        let tls = tokio::time::timeout(wait, tokio_rustls::TlsConnector::from(tls14().client_h2.clone()).connect(name, client))
+            .await
+            .map_err(|_| io_err(TimedOut, "TLS handshake"))??;
+        if tls.get_ref().1.alpn_protocol() != Some(b"h2") {
+            return Err(io_err(Other, "ALPN h2 not negotiated"));
+        }
+        let (send, conn) = tokio::time::timeout(wait, h2::client::Builder::new().handshake::<_, Bytes>(tls))
+            .await
+            .map_err(|_| io_err(TimedOut, "h2 handshake"))?
+            .map_err(|e| io_err(Other, format!("h2 handshake: {e}")))?;
+        tokio::spawn(async move {
+            let _ = conn.await;
+        });
+        self.h2 = Some(send);
+        Ok(())
+    }
+    async fn exchange_h2(&mut self, r: &ConnReq) -> std::io::Result<Option<WireReply>> {
+        use std::io::ErrorKind::{InvalidInput, Other, TimedOut};
+        let wait = Duration::from_secs(8);
+        if self.h2.is_none() {
+            self.open_h2().await?;
+        }
+        let mut uri = b"https://localhost:8443".to_vec();
+        uri.extend_from_slice(&r.path);
+        let method = match r.method {
+            0 => Method::GET,
+            1 => Method::HEAD,
+            _ => Method::POST,
+        };
+        let mut b = Request::builder()
+            .method(method)
+            .uri(Uri::try_from(&uri[..]).map_err(|e| io_err(InvalidInput, e.to_string()))?);
+        match r.range {
+            0 => {}
+            1 => b = b.header("range", "bytes=0-3"),
+            _ => b = b.header("range", "bytes=2000-2999"),
+        }
+        if r.ims {
+            b = b.header("if-modified-since", "Fri, 01 Jan 2100 00:00:00 GMT");
+        }
+        match r.enc {
+            0 => {}
+            1 => b = b.header("accept-encoding", "gzip"),
+            2 => b = b.header("accept-encoding", "br"),
+            _ => b = b.header("accept-encoding", "zstd"),
+        }
+        let req = b.body(()).map_err(|e| io_err(InvalidInput, e.to_string()))?;
+        let send = self.h2.clone().unwrap();
+        let mut send = tokio::time::timeout(wait, send.ready())
+            .await
+            .map_err(|_| io_err(TimedOut, "h2 ready"))?
+            .map_err(|e| io_err(Other, format!("h2 ready: {e}")))?;
+        let (resp, _stream) = send.send_request(req, true).map_err(|e| io_err(Other, format!("h2 send_request: {e}")))?;
+        let resp = match tokio::time::timeout(wait, resp).await {
+            Err(_) => return Err(io_err(TimedOut, "no h2 response head")),
+            // the stream was reset / the connection went away without an answer: what a panic in the pipeline looks like
+            Ok(Err(e)) if e.is_reset() || e.is_go_away() || e.is_io() => return Ok(None),
+            Ok(Err(e)) => return Err(io_err(Other, format!("h2 response: {e}"))),
+            Ok(Ok(resp)) => resp,
+        };
+        let (parts, mut body) = resp.into_parts();
+        let mut data = Vec::new();
+        loop {
+            match tokio::time::timeout(wait, body.data()).await {
+                Err(_) => return Err(io_err(TimedOut, "no h2 response body")),
+                Ok(None) => break,
+                Ok(Some(Err(e))) => return Err(io_err(Other, format!("h2 body: {e}"))),
+                Ok(Some(Ok(chunk))) => {
+                    let _ = body.flow_control().release_capacity(chunk.len());
+                    data.extend_from_slice(&chunk);
+                }
+            }
+        }
+        let headers: Vec<(Vec<u8>, Vec<u8>)> =
+            parts.headers.iter().map(|(n, v)| (n.as_str().as_bytes().to_vec(), v.as_bytes().to_vec())).collect();
+        let enc = headers.iter().find(|(k, _)| k == b"content-encoding").map(|(_, v)| v.clone());
+        let body = match enc {
+            Some(enc) if !data.is_empty() => match crate::c00pipe::decode_body(Some(&enc[..]), &data) {
+                (b, true) => b,
+                (_, false) => b"<body does not decode with its content-encoding>".to_vec(),
+            },
+            _ => data,
+        };
+        Ok(Some(WireReply { status: parts.status.as_u16(), headers, body }))
+    }
+
     async fn connect(&mut self) -> std::io::Result<()> {
         let listener = tokio::net::TcpListener::bind("127.0.0.1:0").await?;
         let addr = listener.local_addr()?;
@@ -846,6 +982,9 @@ fn conn(x: &X) -> X {
         };
         let mut host = Host::unsecure("localhost", host_path, ext, opts);
         host.limiter.disable();
+        if cfg.h2 {
+            *host.certificate.write().unwrap() = Some(tls14().key.clone());
+        }
         CONN_COLL.with(|c| *c.borrow_mut() = Some(HostCollection::builder().insert(host).build()));
         X::N(0)
     });
@@ -856,12 +995,13 @@ fn conn(x: &X) -> X {
         return built;
     }
     let coll = CONN_COLL.with(|c| c.borrow_mut().take().unwrap());
-    let desc = Arc::new(PortDescriptor::unsecure(8080, coll));
+    let desc = Arc::new(if cfg.h2 { PortDescriptor::new(8443, coll) } else { PortDescriptor::unsecure(8080, coll) });
     let out = conn_rt().block_on(async move {
-        let mut client = ConnClient { stream: None, desc };
+        let mut client = ConnClient { stream: None, desc, h2: None };
         let mut out = Vec::new();
         for r in &reqs {
-            match client.exchange(r).await {
+            let answer = if cfg.h2 { client.exchange_h2(r).await } else { client.exchange(r).await };
+            match answer {
                 Err(e) => return Err(X::L(vec![X::N(93), X::b(format!("{:?}", e.kind()))])),
                 // the connection was closed without an answer: what a panic in the pipeline looks like
                 Ok(None) => return Err(X::panic()),
